@@ -70,7 +70,10 @@ async def shuffle_buffer_async(iterable: AsyncIterable[T],
 
     # Fill the buffer.
     buffer: list[T] = []
-    async for _, item in asyncstdlib.zip(range(buffer_size), iterable):
+    # Only borrow the iterator, asyncstdlib.zip would otherwise close it and
+    # all elements beyond the initial buffer would be lost.
+    async for _, item in asyncstdlib.zip(range(buffer_size),
+                                         asyncstdlib.borrow(iterable)):
         buffer.append(item)
 
     # Iterate and keep filling the buffer.
